@@ -434,6 +434,31 @@ func VerifC03Replace() {
 }
 
 // VerifC03Self: Diff(v, v') is nil whenever v' is structurally equal to v.
+// VerifC03Aliased: old and new share one backing array (a resolver returning a
+// prefix, or an in-place extension, of a cached slice): the lengths differ or
+// not, the first element is the same memory. Also nested one level down.
+func VerifC03Aliased() {
+	n := nondet.Choice("cap", 4)
+	base := make([]interface{}, n, n+1)
+	for i := 0; i < n; i++ {
+		base[i] = nondet.Int("base." + strconv.Itoa(i))
+	}
+	var old, new []interface{}
+	switch nondet.Choice("how", 3) {
+	case 0: // truncated prefix (including the empty prefix)
+		old, new = base, base[:nondet.Choice("k", n+1)]
+	case 1: // grown from a prefix
+		old, new = base[:nondet.Choice("k", n+1)], base
+	case 2: // appended in place into spare capacity
+		old, new = base, append(base, nondet.Int("extra"))
+	}
+	if nondet.Choice("nest", 2) == 1 {
+		c03Check(map[string]interface{}{"a": old, "b": 1}, map[string]interface{}{"a": new, "b": 1})
+	} else {
+		c03Check(old, new)
+	}
+}
+
 func VerifC03Self() {
 	v := c03Nested("v", 2)
 	w := c03Copy(v)
